@@ -11,6 +11,7 @@
 package main
 
 import (
+	"bytes"
 	"errors"
 	"flag"
 	"fmt"
@@ -1036,6 +1037,24 @@ func famAcc(iters int) {
 			msg = nil
 		}
 		def := genDef(rng, shapes, 0)
+		if it%7 == 3 {
+			// input that ends in k bytes which all have the continuation bit set (k = 1..10: an unterminated varint as long as a
+			// varint may be): as a value, as a key, as a length prefix, at the end of a nested payload and of a packed run
+			k := (it/7)%10 + 1
+			open := bytes.Repeat([]byte{0xff}, k)
+			switch (it / 70) % 5 {
+			case 0:
+				msg = append(protowire.AppendTag(msg, 1, protowire.VarintType), open...)
+			case 1:
+				msg = append(msg, open...)
+			case 2:
+				msg = append(protowire.AppendTag(msg, 2, protowire.BytesType), open...)
+			case 3:
+				msg = protowire.AppendBytes(protowire.AppendTag(msg, 3, protowire.BytesType), append([]byte{0x08}, open...))
+			default:
+				msg = protowire.AppendBytes(protowire.AppendTag(msg, 4, protowire.BytesType), append([]byte{0x01, 0x02}, open...))
+			}
+		}
 		edgeIter := it%5 == 2
 		if edgeIter {
 			// every value around the 32-bit limits, in turn, as a single varint, a repeated varint and a packed run - with every accessor
